@@ -32,7 +32,8 @@ CPLX = ["1+2j", "(1+2j)*2", "2*1j", "sqrt(-1+0j)", "z", "z*z", "1j**2+0.5j", "-z
         "1j*1j", "2j**2", "z-2j", "(1+2j)*(1-2j)", "z*0"]
 CSLOTS = [("int", "int v = C"), ("float", "float v = C"), ("intarr", "int array V =\n    1, C"), ("floatarr", "float array V[1, 2] =\n    C, 1"), ("floatarr2", "float array V =\n    1, 2\n    3, C"),
           ("intloop", "for int j in [C]\n    G | 0"), ("floatloop", "for float j in [1.5, C]\n    G | 0")]
-LOOPT = [("int", "0.5"), ("int", '"a"'), ("str", "1"), ("float", '"a"'), ("bool", "2"), ("int", "1, 2.5"), ("bool", '"True"'), ("str", "True"), ("int", "7/2")]
+LOOPT = [("int", "0.5"), ("int", '"a"'), ("str", "1"), ("float", '"a"'), ("bool", "2"), ("int", "1, 2.5"), ("bool", '"True"'), ("str", "True"), ("int", "7/2"),
+         ("str", '"a", 2.5'), ("str", '"x", True'), ("str", '1, "b"'), ("int", '1, "2"'), ("float", '0.5, "1.5"'), ("bool", 'True, 2')]
 
 
 def judge(src, expect):
@@ -124,6 +125,9 @@ def build(ctx, incdir):
     incp = 'include "%s"\n' % os.path.join(incdir, "subp.xbb")
     for call, tag in (("Sub2 | 0", "arity-few"), ("Sub2 | [0, 1, 2]", "arity-many"), ("Sub2(a=1) | [0, 1]", "kw-on-plain"), ("Sub2(1) | [0, 1]", "pos-on-plain")):
         cases.append(("include-" + tag, H + inc + "\n" + call + "\n", None))
+    incs = 'include "%s"\n' % os.path.join(incdir, "sparse.xbb")
+    for call, tag in (("Sparse | [4, 5, 6]", "arity-many-sparse"), ("Sparse | 4", "arity-few-sparse"), ("Sparse | [4, 5, 6, 7, 8]", "arity-register-size")):
+        cases.append(("include-" + tag, H + incs + "\n" + call + "\n", None))
     for call, tag in (("SubP | [0, 1]", "kw-missing-all"), ("SubP(a=1) | [0, 1]", "kw-missing-one"), ("SubP(a=1, b=2, c=3) | [0, 1]", "kw-extra"), ("SubP(a=1, bb=2) | [0, 1]", "kw-misspelt"),
                       ("SubP(a=1, b=2) | 0", "arity-few"), ("SubP(a=1, b=2) | [0, 1, 2]", "arity-many")):
         cases.append(("include-" + tag, H + incp + "\n" + call + "\n", None))
@@ -133,6 +137,7 @@ def build(ctx, incdir):
 def write_includes(d):
     os.makedirs(d, exist_ok=True)
     open(os.path.join(d, "sub2.xbb"), "w").write("name Sub2\nversion 1.0\n\nG | 0\nH(0.5) | [1, 0]\n")
+    open(os.path.join(d, "sparse.xbb"), "w").write("name Sparse\nversion 1.0\n\nG | 2\nH(0.5) | [9, 2]\n")
     open(os.path.join(d, "subp.xbb"), "w").write("name SubP\nversion 1.0\n\nG({a}) | 0\nH({b}, 2*{a}) | [1, 0]\n")
 
 
@@ -141,8 +146,8 @@ def run(ctx):
     write_includes(incdir)
     cases = common.shard(build(ctx, incdir), ctx.seed)
     # sanity: the include files really are callable when called correctly (otherwise the refusals are vacuous)
-    st, p = common.loads(H + 'include "%s"\ninclude "%s"\n\nSub2 | [3, 4]\nSubP(a=1, b=2) | [0, 1]\n' % (os.path.join(incdir, "sub2.xbb"), os.path.join(incdir, "subp.xbb")))
-    if st != "ok" or len(p.operations) != 4:
+    st, p = common.loads(H + 'include "%s"\ninclude "%s"\ninclude "%s"\n\nSub2 | [3, 4]\nSubP(a=1, b=2) | [0, 1]\nSparse | [4, 5]\n' % (os.path.join(incdir, "sub2.xbb"), os.path.join(incdir, "subp.xbb"), os.path.join(incdir, "sparse.xbb")))
+    if st != "ok" or len(p.operations) != 6:
         raise RuntimeError("harness: correct include calls do not load: %r" % (p,))
     res = pool.pmap(_case, cases, chunk=40)
     V = common.Violations(keep=6)
@@ -171,7 +176,7 @@ def replay(case):
         import re
         d = tempfile.mkdtemp(prefix="bbv-c11r-")
         write_includes(d)
-        src = re.sub(r'include "[^"]*/(sub2|subp)\.xbb"', lambda m: 'include "%s/%s.xbb"' % (d, m.group(1)), src)
+        src = re.sub(r'include "[^"]*/(sub2|subp|sparse)\.xbb"', lambda m: 'include "%s/%s.xbb"' % (d, m.group(1)), src)
     try:
         exp = case["expect"]
         r = judge(src, tuple(exp) if exp else None)
